@@ -285,9 +285,14 @@ impl WithT for Run<'_> {
                     }
                     let mut plen = if *pop == 5 { (*len as usize % 100) + 1 } else if *len % 8 == 7 { (*len as usize % 20) + 1 } else { 0 };
                     if *pop == 5 {
-                        if let Some(k) = idx {
-                            // the peer honours the credit the driver advertised
-                            let free = CAPACITY as usize - conns[k].buffered.len() - expected_polls.iter().filter(|(p, _)| p.op == 5 && (p.src_cid, p.src_port) == peer_a && p.dst_port == port_v && p.dst_cid == GUEST_CID).map(|(_, b)| b.len()).sum::<usize>();
+                        // the peer honours the credit the driver advertised -- also for a connection
+                        // that does not exist yet but may exist by the time the packet is polled,
+                        // because the peer's REQUEST is still waiting (a later `listen` accepts it)
+                        let same = |p: &Pkt| (p.src_cid, p.src_port) == peer_a && p.dst_port == port_v && p.dst_cid == GUEST_CID;
+                        let request_pending = expected_polls.iter().any(|(p, _)| p.op == 1 && same(p));
+                        if idx.is_some() || request_pending {
+                            let buffered = idx.map(|k| conns[k].buffered.len()).unwrap_or(0);
+                            let free = (CAPACITY as usize).saturating_sub(buffered + expected_polls.iter().filter(|(p, _)| p.op == 5 && same(p)).map(|(_, b)| b.len()).sum::<usize>());
                             plen = plen.min(free);
                             if plen == 0 {
                                 continue;
